@@ -240,6 +240,13 @@ fn units(run: &Run) -> Vec<Unit> {
             u.push(Unit { mode: "default-schedule", w, n, bound: Some(0), part: None, spin: 0, hint: 0 });
         }
     }
+    // many workers: thread counts around the powers of two a threshold would sit at (work handed out
+    // in blocks that grow with the thread count), with item counts that are not multiples of anything
+    for w in tu_verif::enumerate::threshold_lengths(if quick { 5 } else { 7 }) {
+        for n in [1usize, 3, 7, w + 1] {
+            u.push(Unit { mode: "default-schedule", w, n, bound: Some(0), part: None, spin: 0, hint: 0 });
+        }
+    }
     // upstream iterators whose size hint is not exact (every interleaving again for the small cases):
     // the number of items is what the iterator yields, not what it announces
     for hint in 1..HINTS.len() {
